@@ -32,7 +32,7 @@ META = {
         'enumerates every direction x count x scale 1..12,16,60,255 (truncation table), all sign forms of M, prefixes, nesting and references.'),
     'level_note': (
         'pcbasic applies no per-axis aspect scaling when the angle is 0, so the statement\'s plain arithmetic is used in every mode. '
-        'Not pinned by the statement and therefore not generated: A/TA, negative or blank-split counts, colours outside the attribute '
+        'B and N may stand apart from their move, in either order, with C, S, A0, TA0, move-free X substrings, blanks and semicolons in between: the reference keeps the prefix pending until the next move (a pending prefix in front of a substring that itself moves is not pinned and not generated). Not pinned by the statement and therefore not generated: turning (A/TA other than 0), P, negative or blank-split counts, colours outside the attribute '
         'range, the colour used before any C (every string starts with an explicit C), whether S persists over CLS (strings without S '
         'are only run in a fresh session before any S was given; all others begin with an explicit S). Per-segment equality with LINE is '
         'observed as equality of the final pages after the same segment sequence (single-segment strings give it exactly). '
@@ -42,7 +42,7 @@ META = {
     'design_ref': 'DESIGN.md section 4 C33',
     'assumptions': ['POINT(0)/POINT(1) after PSET report the PSET position (used as the start of the pen)'],
     'require_counters': {'any': ['strings', 'moves', 'moves_without_count', 'scaled_fractional_moves', 'relative_m', 'absolute_m',
-                                 'prefix_b', 'prefix_n', 'substrings', 'varptr_substrings', 'variable_refs', 'no_scale_strings',
+                                 'prefix_b', 'prefix_n', 'detached_prefix_b', 'detached_prefix_n', 'prefix_kept_over_commands', 'substrings', 'varptr_substrings', 'variable_refs', 'no_scale_strings',
                                  'segments_compared', 'colour_changes', 'pen_offscreen_end']},
     'timeout': {'quick': 900, 'thorough': 3600},
 }
@@ -82,10 +82,48 @@ class Gen(object):
         g = self.g
         return (-300 - self.pos[0], g.w + 300 - self.pos[0], -300 - self.pos[1], g.h + 300 - self.pos[1])
 
-    def move(self):
+    def mid(self):
+        """Non-move commands that may stand between a B / N prefix and its move."""
         rng = self.rng
-        b = rng.random() < 0.15
-        nn = rng.random() < 0.15
+        out = []
+        for _ in range(rng.choice([0, 1, 1, 1, 2, 3])):
+            r = rng.random()
+            if r < 0.35:
+                out.append(['C', rng.randrange(self.g.nattr)])
+            elif r < 0.6 and self.allow_scale:
+                self.scale = rng.choice([1, 2, 3, 4, 5, 6, 8, 12, 20])
+                out.append(['S', self.scale])
+            elif r < 0.8 and self.nsub < 3:
+                self.nsub += 1
+                sub = [['C', rng.randrange(self.g.nattr)]]
+                if self.allow_scale and rng.random() < 0.5:
+                    self.scale = rng.choice([1, 3, 4, 7, 10])
+                    sub.append(['S', self.scale])
+                out.append(['X', sub])
+            elif r < 0.9:
+                out.append(['A', 0])
+            else:
+                out.append(['TA', 0])
+        return out
+
+    def move(self):
+        """-> list of commands: [prefix commands, in-between commands,] one move"""
+        rng = self.rng
+        b = rng.random() < 0.18
+        nn = rng.random() < 0.18
+        pre = []
+        if (b or nn) and rng.random() < 0.5:
+            # prefixes on their own, in either order, with other commands before the move
+            tags = ([['B']] if b else []) + ([['N']] if nn else [])
+            rng.shuffle(tags)
+            k = rng.randrange(len(tags) + 1)
+            pre = tags[:k] + (self.mid() if rng.random() < 0.85 else []) + tags[k:] + (self.mid() if rng.random() < 0.5 else [])
+            return pre + self._move(False, False, nn)
+        return self._move(b, nn, nn)
+
+    def _move(self, b, nn, stays):
+        """one move command; `stays`: the pen returns (N given attached or pending)"""
+        rng = self.rng
         r = rng.random()
         lo_x, hi_x, lo_y, hi_y = self._room()
         if r < 0.62:
@@ -119,10 +157,10 @@ class Gen(object):
             y = rng.choice([rng.randrange(g.h), rng.randrange(g.h), 0, g.h - 1, g.h + rng.randint(0, 60), -rng.randint(1, 40)])
             c = ['ma', x, y, b, nn]
             dx, dy = x - self.pos[0], y - self.pos[1]
-        if not nn:
+        if not stays:
             self.pos[0] += dx
             self.pos[1] += dy
-        return c
+        return [c]
 
     def commands(self, n, depth=0):
         rng = self.rng
@@ -130,7 +168,7 @@ class Gen(object):
         for _ in range(n):
             r = rng.random()
             if r < 0.70:
-                out.append(self.move())
+                out += self.move()
             elif r < 0.80 and self.allow_scale:
                 s = rng.choice([1, 2, 3, 4, 4, 5, 6, 7, 8, 9, 10, 12, 16, 20, 31, 60, 100, 255, rng.randint(1, 255)])
                 self.scale = s
@@ -141,14 +179,23 @@ class Gen(object):
                 self.nsub += 1
                 out.append(['X', self.commands(rng.randint(1, 4), depth + 1)])
             else:
-                out.append(self.move())
+                out += self.move()
         return out
 
 
 def count_features(cmds, res, scale):
     """Behavioural counters from the structured form; returns the scale in force afterwards."""
+    pending = between = False
     for c in cmds:
         op = c[0]
+        if op in ('B', 'N'):
+            pending = True
+        elif op in ('mv', 'mr', 'ma'):
+            if pending and between:
+                res.count('prefix_kept_over_commands')
+            pending = between = False
+        elif pending:
+            between = True
         if op == 'S':
             scale = c[1]
             res.count('scale_commands')
@@ -157,6 +204,10 @@ def count_features(cmds, res, scale):
         elif op == 'X':
             res.count('substrings')
             scale = count_features(c[1], res, scale)
+        elif op in ('B', 'N'):
+            res.count('detached_prefix_' + op.lower())
+        elif op in ('A', 'TA'):
+            res.count('angle_zero_commands')
         else:
             res.count('moves')
             if op == 'mv':
@@ -257,6 +308,10 @@ class Render(object):
                 emit(b'S' + self.gap() + self.unsigned(c[1]))
             elif op == 'C':
                 emit(b'C' + self.gap() + self.unsigned(c[1]))
+            elif op in ('B', 'N'):
+                emit(op.encode())
+            elif op in ('A', 'TA'):
+                emit(op.encode() + self.gap() + b'%d' % c[1])
             elif op == 'X':
                 sub = Render(self.rng, self.plain, parent=self)
                 sparts = sub.parts(c[1])
@@ -461,7 +516,7 @@ def random_cases(pair, rng, n, no_scale):
         k = 1 if r < 0.2 else rng.randint(2, 6) if r < 0.7 else rng.randint(6, 12)
         body = gen.commands(k)
         if not any(c[0] in ('mv', 'mr', 'ma', 'X') for c in body):
-            body.append(gen.move())
+            body += gen.move()
         pair.case(head + body, rng, start)
 
 
@@ -501,6 +556,24 @@ def directed(pair):
     pair.case([['S', 8], ['C', c], ['mv', 'E', 7, False, False]], rng, (cx, cy), plain=True)
     pair.case([['S', 8], ['C', c], ['mv', 'F', 7, False, False], ['mv', 'L', None, True, False]], rng, None, plain=True)
     pair.case([['S', 3], ['C', c], ['mv', 'H', 5, False, True], ['mv', 'D', 5, False, False]], rng, None, plain=True)
+    # B / N apart from their move: every prefix combination x what stands in between x kind of move
+    c1 = 1 % g.nattr or 1
+    mids = [[], [['C', c1]], [['S', 6]], [['X', [['C', c1]]]], [['X', [['S', 10], ['C', c]]]], [['A', 0]], [['TA', 0]],
+            [['C', c1], ['S', 3], ['X', [['C', c]]]]]
+    moves = [['mv', 'R', 10, False, False], ['mv', 'G', None, False, False], ['mr', 8, 4, False, False], ['mr', -6, -9, False, False],
+             ['ma', cx + 17, cy - 11, False, False]]
+    k = 0
+    for tags in ([['B']], [['N']], [['B'], ['N']], [['N'], ['B']]):
+        for mid in mids:
+            for mv in moves:
+                k += 1
+                if len(tags) == 2 and k % 2:
+                    seq = [tags[0]] + mid + [tags[1]]       # second prefix after the in-between commands
+                else:
+                    seq = tags + mid
+                # a visible stroke before and after shows whether the prefixed move drew and where the pen went
+                pair.case([['S', 4], ['C', c], ['mv', 'U', 3, False, False]] + seq + [mv, ['mv', 'E', 4, False, False]],
+                          rng, (cx, cy), plain=(k % 3 != 0))
     # surface forms: variables, VARPTR$, blanks and semicolons (fixed generator)
     for i in range(40):
         gen = Gen(rng, g, (cx, cy), allow_scale=True, scale=4)
@@ -508,7 +581,7 @@ def directed(pair):
         gen.scale = s
         body = gen.commands(5)
         if not any(k[0] in ('mv', 'mr', 'ma', 'X') for k in body):
-            body.append(gen.move())
+            body += gen.move()
         pair.case([['S', s], ['C', 1 + i % (g.nattr - 1)]] + body, rng, (cx, cy))
 
 
